@@ -416,7 +416,12 @@ struct Plan {
     ensure_ff: bool,
     /// the annotated tag `ann` exists and is re-created on an unrelated commit
     ensure_moved_ann: bool,
+    /// `refs/heads/main` is also mapped onto a destination that is a dangling symbolic ref
+    dangling_dst: bool,
 }
+
+const DANGLE: &str = "refs/remotes/origin/dangle";
+const DANGLE_TARGET: &str = "refs/remotes/origin/nowhere";
 
 const SPEC_SETS: &[&[&str]] = &[
     &["+refs/heads/*:refs/remotes/origin/*"],
@@ -453,6 +458,7 @@ fn random_plan(r: &mut Rng) -> Plan {
         local_tweaks: r.chance(1, 2),
         ensure_ff: r.chance(1, 3),
         ensure_moved_ann: r.chance(1, 8),
+        dangling_dst: r.chance(1, 10),
     }
 }
 
@@ -469,6 +475,7 @@ fn corpus_plans() -> Vec<Plan> {
         local_tweaks: false,
         ensure_ff: false,
         ensure_moved_ann: false,
+        dangling_dst: false,
     };
     vec![
         base.clone(),
@@ -486,6 +493,8 @@ fn corpus_plans() -> Vec<Plan> {
         Plan { initial_depth: Some(2), fetch_depth: None, algo: "consecutive", protocol: 1, ensure_ff: true, ..base.clone() },
         Plan { algo: "skipping", ensure_ff: true, ..base.clone() },
         Plan { tag_opt: Some("--tags"), protocol: 1, ..base.clone() },
+        Plan { dangling_dst: true, ensure_ff: true, ..base.clone() },
+        Plan { dangling_dst: true, protocol: 1, specs: vec!["refs/heads/*:refs/remotes/origin/*"], ..base.clone() },
     ]
 }
 
@@ -559,6 +568,11 @@ fn setup_client(r: &mut Rng, world: &mut World, srv: &Server, dir: &Path, plan: 
                 let _ = git(dir, &["update-ref", "refs/heads/main", oid], None);
             }
         }
+    }
+    if plan.dangling_dst {
+        git_ok(dir, &["symbolic-ref", DANGLE, DANGLE_TARGET], None);
+        git_ok(dir, &["config", "--add", "remote.origin.fetch", &format!("refs/heads/main:{DANGLE}")], None);
+        rep.bucket("client:dangling-symref-destination");
     }
     if plan.local_tweaks {
         let refs = refs_of(dir);
@@ -840,14 +854,15 @@ fn scenario(rep: &mut Report, scratch: &Scratch, seed: u64, idx: u64, plan: Opti
     // destination → why gitoxide and git may legitimately be expected to differ there (a finding class)
     let mut causes: HashMap<String, String> = HashMap::new();
     for m in &mappings {
-        let local_exists = m.local.as_ref().map_or(false, |l| before.contains_key(l));
+        let local_unborn = plan.dangling_dst && m.local.as_deref() == Some(DANGLE);
+        let local_exists = local_unborn || m.local.as_ref().map_or(false, |l| before.contains_key(l));
         let local_id = m.local.as_ref().and_then(|l| before.get(l)).map(|v| v.0.clone()).unwrap_or_default();
         let remote_id = m.remote_id.clone().unwrap_or_default();
         let new_exists = m.remote_id.as_ref().map_or(false, |id| git(&gix_dir, &["cat-file", "-e", id], None).ok);
         let checked_out = m.local.as_ref().map_or(false, |l| l == "HEAD" || Some(l) == head_target.as_ref());
         let dst_is_tag = m.local.as_ref().map_or(false, |l| l.starts_with("refs/tags/"));
-        let same = local_exists && local_id == remote_id;
-        let lk = if local_exists { world.kind(&local_id) } else { "commit" };
+        let same = local_exists && !local_unborn && local_id == remote_id;
+        let lk = if local_exists && !local_unborn { world.kind(&local_id) } else { "commit" };
         let rk = world.kind(&remote_id);
         let lp = local_exists && world.peel(&local_id).is_some();
         let rp = world.peel(&remote_id).is_some();
@@ -886,6 +901,11 @@ fn scenario(rep: &mut Report, scratch: &Scratch, seed: u64, idx: u64, plan: Opti
                 }
             }
         }
+        if local_unborn {
+            let c = "destination is a dangling symbolic ref: git stores through it (creating its target), gitoxide replaces the symbolic ref by a direct ref".to_string();
+            causes.insert(DANGLE_TARGET.to_string(), c.clone());
+            cause = Some(c);
+        }
         if m.mode == "ImplicitTagNotSentByRemote" {
             cause = Some("auto-followed tag whose tag object was not in the pack (its target was already here): git fetches it in a second step, gitoxide reports ImplicitTagNotSentByRemote".into());
         }
@@ -893,12 +913,13 @@ fn scenario(rep: &mut Report, scratch: &Scratch, seed: u64, idx: u64, plan: Opti
             causes.insert(l.clone(), c.clone());
         }
         let sit = format!(
-            "{} {} {} {} {} 0 0 {} {} {} {} {} {} {} {} {}",
+            "{} {} {} {} {} {} 0 {} {} {} {} {} {} {} {} {}",
             bit(m.local.is_some()),
             bit(m.remote_id.is_none()),
             bit(new_exists),
             bit(m.implicit),
             bit(local_exists),
+            bit(local_unborn),
             bit(checked_out),
             bit(dst_is_tag),
             bit(m.force),
@@ -920,8 +941,16 @@ fn scenario(rep: &mut Report, scratch: &Scratch, seed: u64, idx: u64, plan: Opti
                 if let Some(flag) = git_flags.get(p) {
                     let f = if *flag == ' ' { "_".to_string() } else { flag.to_string() };
                     let sit = if anc_git == anc { sit.clone() } else { format!("{} {}", &sit[..sit.len() - 2], bit(anc_git)) };
-                    rep.case(&format!("gitdec {sit}"), &f, true);
-                    rep.bucket(&format!("gitflag:{f}"));
+                    if !local_unborn {
+                        rep.case(&format!("gitdec {sit}"), &f, true);
+                        rep.bucket(&format!("gitflag:{f}"));
+                    }
+                    // the destination as `git rev-parse` would resolve it, before and after
+                    let resolved_before = if local_unborn { None } else { before.get(l).map(|v| v.0.clone()) };
+                    let resolved_after = after_git.get(l).map(|v| v.0.clone());
+                    let eff = if resolved_after != resolved_before { "update" } else { "keep" };
+                    rep.case(&format!("giteff {sit}"), eff, true);
+                    rep.bucket(&format!("giteffect:{eff}"));
                 }
             }
         }
